@@ -123,6 +123,20 @@ impl RelayTransport {
                 .datagrams
                 .segment_size
                 .map_or(1, |ss| buf_out.len() / u16::from(ss) as usize);
+            if num_segments == 0 {
+                // Not even one segment of this batch fits into our receive buffer: none of it
+                // can ever be delivered.  Drop the whole batch, taking zero segments would
+                // leave it pending forever and wedge the receive path.
+                warn!(
+                    noq_buf_len = buf_out.len(),
+                    segment_size = ?dm.datagrams.segment_size,
+                    "dropping received datagram batch: noq buffer smaller than one segment"
+                );
+                self.pending_item = None;
+                // We consumed an item without reporting it: make sure we are polled again.
+                cx.waker().wake_by_ref();
+                break;
+            }
             let datagrams = dm.datagrams.take_segments(num_segments);
             let empty_after = dm.datagrams.contents.is_empty();
             let dm = RelayRecvDatagram {
@@ -144,6 +158,8 @@ impl RelayTransport {
                     segment_size = ?dm.datagrams.segment_size,
                     "dropping received datagram: noq buffer too small"
                 );
+                // We consumed an item without reporting it: make sure we are polled again.
+                cx.waker().wake_by_ref();
                 break;
                 // In theory we could put some logic in here to fragment the datagram in case
                 // we still have enough room in our `buf_out` left to fit a couple of
